@@ -1015,8 +1015,10 @@ class TupleCol:
 
 
 def _m_groupby(self, interp):
-    def groupby(by=None, **kw):
+    def groupby(by=None, sort=True, **kw):
         only_kw("frames.groupby", kw)
+        if sort is not True and sort is not False:
+            raise Undecided("groupby(sort=<symbolic>)")
         if callable(by) and not isinstance(by, (list, tuple, str)):
             # groupby(function of the index label): only the constant function (everything in one group) is modelled
             r = by(V(self.axis.root.u))
@@ -1025,7 +1027,12 @@ def _m_groupby(self, interp):
             _use("groupby(lambda label: const): all rows in one group")
             return GroupBy(self, [], interp)
         by = [by] if isinstance(by, str) else list(by)
-        return GroupBy(self, by, interp)
+        g = GroupBy(self, by, interp)
+        if not sort:
+            # groups in order of first appearance: the same groups, in an order about which nothing is known here
+            _use("groupby(keys, sort=False): the same groups and values as sort=True, in order of first appearance")
+            g.order = ("first_appearance", tuple(by))
+        return g
 
     return groupby
 
@@ -1280,7 +1287,7 @@ class GroupBy:
         gs = self._space()
         segs = self._group_dom(gs)
         p = self._present(gs, segs)
-        ax = RowAxis(gs, [p], ("sorted", tuple(self.by)))
+        ax = RowAxis(gs, [p], getattr(self, "order", None) or ("sorted", tuple(self.by)))
         out = Frame(ax, {}, ("groupkeys", ax.name), None)
         for b in self.by:
             out.cols[b] = V(gs.keyvars[b], (ax,), out.index)
@@ -1378,7 +1385,7 @@ class GroupBy:
             self.interp.current_group = prev
         if not isinstance(res, SeriesRecord):
             raise Undecided("groupby.apply with a function that does not return pd.Series({...})")
-        ax = RowAxis(gs, [p], ("sorted", tuple(self.by)))
+        ax = RowAxis(gs, [p], getattr(self, "order", None) or ("sorted", tuple(self.by)))
         out = Frame(ax, {}, ("groupkeys", ax.name), None)
         for b in self.by:
             out.cols[b] = V(gs.keyvars[b], (ax,), out.index)
